@@ -1,6 +1,6 @@
 (* C07 -- property theorems only: statement + exact + Print Assumptions. *)
 From Coq Require Import List ZArith.
-From LJT Require Import gen.GenDctConst model.Quant model.Dct proofs.QuantCert proofs.QuantProofs proofs.DctProofs.
+From LJT Require Import gen.GenDctConst model.Quant model.Dct proofs.QuantCert proofs.QuantProofs proofs.DctProofs proofs.DctRange.
 Import ListNotations.
 Local Open Scope Z_scope.
 
@@ -48,6 +48,26 @@ Theorem C07_coef_error_bound : forall cf q, cfg_ok cf -> 1 <= q <= 65535 ->
       2 * Z.abs (quantize_one cf dv x * (8 * q) - x) <= 8 * q.
 Proof. exact coef_error_bound_proof. Qed.
 Print Assumptions C07_coef_error_bound.
+
+(* jpeg_fdct_islow on ANY block of centred valid samples: no DCTELEM store wraps (the 16-bit
+   short of the SIMD build included) and every coefficient is within 64*CENTERJSAMPLE ... *)
+Theorem C07_fdct_in_range : forall cf data, cfg_ok cf -> length data = 64%nat ->
+  Forall (fun x => - centersample cf <= x <= centersample cf) data ->
+  Forall (fun x => - (64 * centersample cf) <= x <= 64 * centersample cf) (fdct_islow cf data).
+Proof. exact fdct_in_range. Qed.
+Print Assumptions C07_fdct_in_range.
+
+(* ... hence for every block of valid samples and every table of non-zero UINT16 entries the
+   compressor (convsamp, jpeg_fdct_islow, start_pass_fdctmgr, quantize) delivers coefficients
+   with |Q_k * q_k - F_k / 8| <= q_k / 2 for all 64 k *)
+Theorem C07_block_coef_error : forall cf qtbl samples,
+  cfg_ok cf -> length qtbl = 64%nat -> length samples = 64%nat ->
+  (forall q, In q qtbl -> 1 <= q <= 65535) ->
+  Forall (fun s => 0 <= s <= maxsample cf) samples ->
+  exists coefs, forward_block cf qtbl samples = Some coefs /    Forall2 (fun qf c => 2 * Z.abs (c * (8 * fst qf) - snd qf) <= 8 * fst qf)
+            (combine qtbl (fdct_islow cf (convsamp cf samples))) coefs.
+Proof. exact block_coef_error_proof. Qed.
+Print Assumptions C07_block_coef_error.
 
 (* the forward DCT of a constant block and the inverse DCT of a DC-only block *)
 Theorem C07_fdct_const_block : forall cf c, cfg_ok cf -> - centersample cf <= c <= centersample cf ->
